@@ -45,6 +45,10 @@ impl OpaqueTripleSet { pub uninterp spec fn view(&self) -> Set<Triple>; }
     ensures r.view() == Set::<Triple>::empty() { unimplemented!() }
 #[verifier::external_body] fn primary_clear(set: &mut OpaqueTripleSet)
     ensures final(set).view() == Set::<Triple>::empty() { unimplemented!() }
+#[verifier::external_body] #[derive(Clone, Copy)] pub struct TxId { _p: () }      // E1: grafeo_common::types::TxId, only passed through
+// `buffer.buffers.remove(&tx_id).unwrap_or_default()`: the operations buffered for tx_id, in the order they were issued (no contract needed:
+// commit_tx is specified relative to whatever sequence it takes out)
+#[verifier::external_body] fn tx_take(buf: &mut OpaqueTxBuffer, tx_id: TxId) -> (r: Vec<PendingOp>) { unimplemented!() }
 #[verifier::external_body] fn tx_buffer_new() -> (r: OpaqueTxBuffer) { unimplemented!() }
 // std: Arc::clone copies the pointer - the clone of an Arc IS that Arc (used for Vec<Arc<_>>::clone)
 #[verifier::external_body] pub proof fn axiom_arc_clone()
@@ -80,6 +84,16 @@ pub open spec fn comp_is(c: Comp, k: Term) -> spec_fn(Arc<Triple>) -> bool { |x:
 pub open spec fn pm(p: TriplePattern) -> spec_fn(Arc<Triple>) -> bool { |x: Arc<Triple>| pattern_matches(p, *x) }
 impl TriplePattern {
     @@TriplePattern::matches@@
+}
+@@PendingOp@@
+/// the set after applying buffered operations in order
+pub open spec fn apply_ops(v: Set<Triple>, ops: Seq<PendingOp>) -> Set<Triple>
+    decreases ops.len()
+{
+    if ops.len() == 0 { v } else {
+        let p = apply_ops(v, ops.drop_last());
+        match ops.last() { PendingOp::Insert(t) => p.insert(t), PendingOp::Delete(t) => p.remove(t) }
+    }
 }
 @@RdfStoreConfig@@
 @@RdfStore@@
@@ -368,6 +382,8 @@ impl RdfStore {
     @@RdfStore::triples_with_object@@
 
     @@RdfStore::clear@@
+
+    @@RdfStore::commit_tx@@
 }
 
 } // verus!
@@ -563,7 +579,26 @@ r__''' % (fld, name))
     f.ensures('empty_set', 'final(self).triples.view() == Set::<Triple>::empty()')
     f.ensures('store_invariant', 'final(self).store_wf()')
 
-    u.not_covered += ['RdfStore::{new, len, is_empty, triples, subjects/predicates/objects, stats, transaction buffer (insert_in_tx, remove_in_tx, commit_tx, rollback_tx, find_with_pending)}', 'the primary FxHashSet<Arc<Triple>> itself (abstract view + assumed std contracts)',
+
+    # ---- commit_tx: the buffered operations are applied in order, as a set ----
+    u.item(SRC, 'enum', 'PendingOp').D1(keep_derive=set()).resub('V1', r'^enum PendingOp', 'pub enum PendingOp', flags=re.M)
+    u.trust('external_body TxId', 'E1: opaque id, only passed through')
+    u.trust('external_body tx_take', 'E3/E1: takes the buffered operations of a transaction out of the (opaque) buffer; commit_tx is specified relative to that sequence')
+    f = u.method(SRC, 'RdfStore', 'commit_tx').D1().ret('r')
+    f.sub('E3', 'pub fn commit_tx(&self,', 'pub fn commit_tx(&mut self,')
+    f.resub('E3', r'let mut buffer = self\.tx_buffer\.write\(\);\s*buffer\.buffers\.remove\(&tx_id\)\.unwrap_or_default\(\)', 'tx_take(&mut self.tx_buffer, tx_id)')
+    f.requires('wf', 'old(self).store_wf()')
+    f.ensures('store_invariant', 'final(self).store_wf()')
+    f.ensures('applied_in_order', 'exists|ops: Seq<PendingOp>| r == ops.len() && final(self).triples.view() == apply_ops(old(self).triples.view(), ops)')
+    f.before('let count = ops.len();', 'let ghost ops0 = ops@; let ghost V0 = self.triples.view();')
+    L = f.loop(0).kind('for').iter('it')
+    L.invariants(('wf', 'self.store_wf()'), ('seq', 'it.seq() == ops0'),
+                 ('applied_prefix', 'self.triples.view() == apply_ops(V0, ops0.take(it.index@ as int))'))
+    L.before('proof { assert(ops0.take(0) =~= Seq::<PendingOp>::empty()); }')
+    L.body_end('proof { let s = ops0.take(it.index@ + 1); assert(s.drop_last() =~= ops0.take(it.index@ as int)); assert(s.last() == ops0[it.index@ as int]); }')
+    L.after('proof { assert(ops0.take(ops0.len() as int) =~= ops0); }')
+
+    u.not_covered += ['RdfStore::{new, len, is_empty, triples, subjects/predicates/objects, stats, transaction buffer (insert_in_tx, remove_in_tx, rollback_tx, find_with_pending)}', 'the primary FxHashSet<Arc<Triple>> itself (abstract view + assumed std contracts)',
                       'SPARQL parser / translator / planner_rdf / operators']
     u.assume('E3: locks dropped - one call is one critical section, sequentially')
     return u
